@@ -288,4 +288,275 @@ Section Trace.
     destruct (srv_drained S rate rate_pos st0 conf cls D s' R U NT) as (Hh & _). split; [exact Hh|].
     intros f. destruct (srv_counters s' R) as (Cf & _). destruct (Cf f) as (A & B). rewrite Hh in A, B. exact (conj A B).
   Qed.
+
+  (* ---- one transmission at a time, lasting exactly 8*size/rate, never aborted ---- *)
+  (* [cur] = the transmission in progress: (instant at which it must end, packet) *)
+  Fixpoint tx_ok (cur : option (Q * pkt)) (tr : list (tev S)) : Prop :=
+    match tr with
+    | [] => True
+    | (a, o, s') :: t =>
+        match a with
+        | FChildInit =>       (* a transmission starts: none may be in progress *)
+            cur = None /\ o = [] /\
+            exists e dl, chl s' = CTx e dl /\ dl == now s' + tx_time rate (epkt e) /\ tx_ok (Some (dl, epkt e)) t
+        | FChildTimer =>      (* a packet is forwarded: it is the one in transmission, at exactly its end instant *)
+            exists dl p, cur = Some (dl, p) /\ o = [OForward p] /\ now s' == dl /\ tx_ok None t
+        | _ =>                (* nothing else forwards, aborts or lets the end instant pass *)
+            o = [] /\ (forall dl p, cur = Some (dl, p) -> now s' <= dl) /\ tx_ok cur t
+        end
+    end.
+
+  Definition cur_of (s : srvS) : option (Q * pkt) :=
+    match chl s with CTx e dl => Some (dl, epkt e) | _ => None end.
+
+  Theorem srv_tx_time_gen acts : forall s s' tr,
+    Reach s -> puts_conf acts -> runS s acts = Some (s', tr) -> tx_ok (cur_of s) tr.
+  Proof.
+    induction acts as [|a rest IH]; intros s s' tr R C H.
+    - cbn in H. injection H as _ <-. exact I.
+    - apply run_cons in H as (s1 & o & tr' & A & H & ->). apply puts_conf_cons in C as (Ca & Cr).
+      assert (R1 : Reach s1) by (eapply reachS; eauto).
+      specialize (IH _ _ _ R1 Cr H).
+      destruct (Inv_reach S rate rate_pos st0 conf cls D s R) as ((_ & _ & _ & Dl) & _).
+      unfold cur_of in *. cbn [tx_ok].
+      destruct a; act_inv A; cbn [now started store stm seq qcount qbytes nrecv chl with_store with_child] in *.
+      + (* FPut *) split; [reflexivity|]. split; [|exact IH].
+        intros dl0 q0 E. destruct (chl s) as [| |e0 d0|]; try discriminate. injection E as <- _. apply (Dl e0 d0 eq_refl).
+      + (* FInit *) split; [reflexivity|]. split; [|exact IH].
+        intros dl0 q0 E. destruct (chl s) as [| |e0 d0|]; try discriminate. injection E as <- _. apply (Dl e0 d0 eq_refl).
+      + (* FStoreCb *) split; [reflexivity|]. split; [|exact IH].
+        intros dl0 q0 E. destruct (chl s) as [| |e0 d0|]; try discriminate. injection E as <- _. apply (Dl e0 d0 eq_refl).
+      + (* FGetDone *) split; [reflexivity|]. split; [discriminate|exact IH].
+      + (* FChildInit *) split; [reflexivity|]. split; [reflexivity|]. eexists _, _. split; [reflexivity|].
+        split; [apply Qred_correct|exact IH].
+      + (* FChildTimer *) eexists _, _. split; [reflexivity|]. split; [reflexivity|]. split; [|exact IH].
+        match goal with E : Qeq_bool _ _ = true |- _ => apply Qeq_bool_iff in E; symmetry; exact E end.
+      + (* FChildEnd *) split; [reflexivity|]. split; [discriminate|exact IH].
+      + (* FAdvance *) split; [reflexivity|]. split; [discriminate|exact IH].
+      + split; [reflexivity|]. split; [discriminate|exact IH].
+      + split; [reflexivity|]. split; [|exact IH]. intros dl' q' E. injection E as <- _.
+        match goal with E : Qle_bool _ _ = true |- _ => apply Qle_bool_iff in E; exact E end.
+      + split; [reflexivity|]. split; [discriminate|exact IH].
+  Qed.
+
+  Theorem srv_tx_time acts s' tr :
+    puts_conf acts -> runS (srv0 0 st0) acts = Some (s', tr) -> tx_ok None tr.
+  Proof. intros C H. apply (srv_tx_time_gen acts _ _ _ (reach0 _ _ _ _) C H). Qed.
+
+  (* ---- each transmission starts the entry selected in that very instant, which had the least key ---- *)
+  Definition newly_granted (pre post : srvS) : option entry :=
+    match get (store post), get (store pre) with
+    | GGranted _, GGranted _ => None
+    | GGranted x, _ => Some x
+    | _, _ => None
+    end.
+
+  (* [cur] = the entry selected (popped from the PriorityStore) and not yet in transmission, with the instant
+     of its selection *)
+  Fixpoint sel_ok (pre : srvS) (cur : option (Q * entry)) (tr : list (tev S)) : Prop :=
+    match tr with
+    | [] => True
+    | (a, o, s') :: t =>
+        match newly_granted pre s' with
+        | Some x =>        (* a selection: nothing else is selected and pending; x has strictly the least key *)
+            cur = None /\
+            (exists l1 l2, items (store pre) = l1 ++ x :: l2 /\ items (store s') = l1 ++ l2 /\ strictly_least cls x l1 l2) /\
+            sel_ok s' (Some (now s', x)) t
+        | None =>
+            match a with
+            | FChildInit =>  (* a transmission starts: it is the selected entry, selected at this very instant *)
+                exists x dl, cur = Some (now s', x) /\ chl s' = CTx x dl /\ sel_ok s' None t
+            | _ =>           (* no time passes while a selected entry waits for its transmission to start *)
+                (forall t0 x, cur = Some (t0, x) -> now s' = t0) /\ sel_ok s' cur t
+            end
+        end
+    end.
+
+  Definition pending (s : srvS) : option (Q * entry) :=
+    match get (store s) with
+    | GGranted x => Some (now s, x)
+    | _ => match chl s with CInit x => Some (now s, x) | _ => None end
+    end.
+
+  Lemma newly_granted_same (s s' : srvS) : get (store s') = get (store s) -> newly_granted s s' = None.
+  Proof. unfold newly_granted. intros ->. destruct (get (store s)); reflexivity. Qed.
+
+  (* a store micro-step by the server (cb / get) from a reachable state *)
+  Lemma sel_step s a s' o (q' : sq item) :
+    Reach s -> actS s a = Ok (s', o) -> store s' = q' -> now s' = now s ->
+    (chl s' = CNone) -> (chl s = CNone \/ exists e, chl s = CEnded e) ->
+    (sq_cb pq_pop (store s) = Some q' \/ sq_get pq_pop (store s) = Some q') ->
+    forall t, sel_ok s' (pending s') t ->
+    match newly_granted s s' with
+    | Some x => pending s = None /\
+                (exists l1 l2, items (store s) = l1 ++ x :: l2 /\ items (store s') = l1 ++ l2 /\ strictly_least cls x l1 l2) /\
+                sel_ok s' (Some (now s', x)) t
+    | None => (forall t0 x, pending s = Some (t0, x) -> now s' = t0) /\ sel_ok s' (pending s) t
+    end.
+  Proof.
+    intros R A Es En Ec' Ec Hq t IH.
+    assert (Hsel : forall x, selects (store s) q' x -> (forall y, get (store s) <> GGranted y) ->
+              match newly_granted s s' with
+              | Some x => pending s = None /\
+                  (exists l1 l2, items (store s) = l1 ++ x :: l2 /\ items (store s') = l1 ++ l2 /\ strictly_least cls x l1 l2) /\
+                  sel_ok s' (Some (now s', x)) t
+              | None => (forall t0 x, pending s = Some (t0, x) -> now s' = t0) /\ sel_ok s' (pending s) t
+              end).
+    { intros x Hs NG. pose proof Hs as (l1 & l2 & _ & _ & Gx & _).
+      assert (Hn : newly_granted s s' = Some x).
+      { unfold newly_granted. rewrite Es, Gx. destruct (get (store s)) as [| |y] eqn:G; try reflexivity.
+        exfalso. apply (NG y). reflexivity. }
+      rewrite Hn.
+      assert (Hp : pending s = None).
+      { unfold pending. destruct (get (store s)) as [| |y] eqn:G; [| |exfalso; apply (NG y); reflexivity];
+          destruct Ec as [->|(e & ->)]; reflexivity. }
+      split; [exact Hp|]. split.
+      + rewrite <- Es in Gx. eapply (srv_select_min S rate rate_pos st0 conf cls D s a s' o x R A Gx).
+        intros G. apply (NG x). exact G.
+      + unfold pending in IH. rewrite Es, Gx in IH. exact IH. }
+    assert (Hsame : get q' = get (store s) \/ (get (store s) = GNone /\ get q' = GWaiting) ->
+              match newly_granted s s' with
+              | Some x => pending s = None /\
+                  (exists l1 l2, items (store s) = l1 ++ x :: l2 /\ items (store s') = l1 ++ l2 /\ strictly_least cls x l1 l2) /\
+                  sel_ok s' (Some (now s', x)) t
+              | None => (forall t0 x, pending s = Some (t0, x) -> now s' = t0) /\ sel_ok s' (pending s) t
+              end).
+    { intros Hg.
+      assert (Hn : newly_granted s s' = None).
+      { unfold newly_granted. rewrite Es. destruct Hg as [->|(-> & ->)]; [destruct (get (store s))|]; reflexivity. }
+      assert (Ep : pending s' = pending s).
+      { unfold pending. rewrite Es, En, Ec'. destruct Hg as [->|(-> & ->)].
+        - destruct (get (store s)); try reflexivity; destruct Ec as [->|(e & ->)]; reflexivity.
+        - destruct Ec as [->|(e & ->)]; reflexivity. }
+      rewrite Hn, <- Ep. split; [|exact IH].
+      intros t0 y E. unfold pending in E.
+      destruct (get (store s')); [| |injection E as <- _; reflexivity];
+        (destruct (chl s'); try discriminate; injection E as <- _; reflexivity). }
+    destruct Hq as [Hq|Hq].
+    - apply pq_cb_inv in Hq as (_ & [(G & y & Hy)|(_ & _ & G')]).
+      + apply (Hsel y Hy). intros z. rewrite G. discriminate.
+      + apply Hsame. left. exact G'.
+    - apply pq_get_inv in Hq as (G & _ & [(_ & _ & G')|(y & Hy)]).
+      + apply Hsame. right. auto.
+      + apply (Hsel y Hy). intros z. rewrite G. discriminate.
+  Qed.
+
+  (* a step that touches neither the getter nor the child nor the clock *)
+  Lemma same_step (s s' : srvS) t :
+    get (store s') = get (store s) -> chl s' = chl s -> now s' = now s ->
+    sel_ok s' (pending s') t ->
+    newly_granted s s' = None /\ (forall t0 x, pending s = Some (t0, x) -> now s' = t0) /\ sel_ok s' (pending s) t.
+  Proof.
+    intros Eg Ec En IH. split; [apply newly_granted_same; exact Eg|].
+    assert (Ep : pending s' = pending s) by (unfold pending; rewrite Eg, Ec, En; reflexivity).
+    rewrite <- Ep. split; [|exact IH]. intros t0 x E. unfold pending in E.
+    destruct (get (store s')); [| |injection E as <- _; reflexivity];
+      (destruct (chl s'); try discriminate; injection E as <- _; reflexivity).
+  Qed.
+
+  Theorem srv_stamp_order_gen acts : forall s s' tr,
+    Reach s -> puts_conf acts -> runS s acts = Some (s', tr) -> sel_ok s (pending s) tr.
+  Proof.
+    induction acts as [|a rest IH]; intros s s' tr R C H.
+    - cbn in H. injection H as _ <-. exact I.
+    - apply run_cons in H as (s1 & o & tr' & A & H & ->). apply puts_conf_cons in C as (Ca & Cr).
+      assert (R1 : Reach s1) by (eapply reachS; eauto).
+      specialize (IH _ _ _ R1 Cr H).
+      destruct (Inv_reach S rate rate_pos st0 conf cls D s R) as ((N & I0 & I1 & Dl) & _).
+      cbn [sel_ok]. pose proof A as A0.
+      destruct a; act_inv A; cbn [now started store stm seq qcount qbytes nrecv chl with_store with_child] in *.
+      + (* FPut *)
+        match goal with |- context [newly_granted s ?x] => set (s1 := x) in * end.
+        destruct (same_step s s1 tr' eq_refl eq_refl eq_refl IH) as (-> & P & Q'). split; assumption.
+      + (* FInit *)
+        match goal with |- context [newly_granted s ?x] => set (s1 := x) in * end.
+        destruct (I0 eq_refl) as (G0 & C0).
+        pose proof (sel_step s FInit s1 [] _ R A0 eq_refl eq_refl C0 (or_introl C0)) as L.
+        match goal with E : sq_get _ _ = Some _ |- _ => specialize (L (or_intror E) tr' IH) end.
+        destruct (newly_granted s s1); exact L.
+      + (* FStoreCb *)
+        match goal with |- context [newly_granted s ?x] => set (s1 := x) in * end.
+        destruct (chl s) as [|e|e dl|e] eqn:Ec.
+        * pose proof (sel_step s FStoreCb s1 [] _ R A0 eq_refl eq_refl Ec (or_introl Ec)) as L.
+          match goal with E : sq_cb _ _ = Some _ |- _ => specialize (L (or_introl E) tr' IH) end.
+          destruct (newly_granted s s1); exact L.
+        * assert (G : get (store s) = GNone).
+          { destruct (started s); [apply (I1 eq_refl); discriminate|destruct (I0 eq_refl); discriminate]. }
+          match goal with E : sq_cb _ _ = Some _ |- _ =>
+            destruct (sq_cb_not_waiting _ _ _ _ E) as (_ & G'); [rewrite G; discriminate|] end.
+          destruct (same_step s s1 tr') as (-> & P & Q'); [exact G'|reflexivity|reflexivity|exact IH|]. split; assumption.
+        * assert (G : get (store s) = GNone).
+          { destruct (started s); [apply (I1 eq_refl); discriminate|destruct (I0 eq_refl); discriminate]. }
+          match goal with E : sq_cb _ _ = Some _ |- _ =>
+            destruct (sq_cb_not_waiting _ _ _ _ E) as (_ & G'); [rewrite G; discriminate|] end.
+          destruct (same_step s s1 tr') as (-> & P & Q'); [exact G'|reflexivity|reflexivity|exact IH|]. split; assumption.
+        * assert (G : get (store s) = GNone).
+          { destruct (started s); [apply (I1 eq_refl); discriminate|destruct (I0 eq_refl); discriminate]. }
+          match goal with E : sq_cb _ _ = Some _ |- _ =>
+            destruct (sq_cb_not_waiting _ _ _ _ E) as (_ & G'); [rewrite G; discriminate|] end.
+          destruct (same_step s s1 tr') as (-> & P & Q'); [exact G'|reflexivity|reflexivity|exact IH|]. split; assumption.
+      + (* FGetDone *)
+        match goal with |- context [newly_granted s ?x] => set (s1 := x) in * end.
+        match goal with E : sq_take _ = Some _ |- _ => apply sq_take_inv in E as (G & _ & _ & G') end.
+        assert (Hn : newly_granted s s1 = None) by (unfold newly_granted, s1; cbn [store with_child with_store]; rewrite G'; reflexivity).
+        rewrite Hn. unfold pending in IH |- *. subst s1. cbn [store chl now with_child with_store] in IH. rewrite G' in IH. rewrite G.
+        split; [|exact IH]. intros t0 x E. injection E as <- _. reflexivity.
+      + (* FChildInit *)
+        match goal with |- context [newly_granted s ?x] => set (s1 := x) in * end.
+        assert (Hn : newly_granted s s1 = None) by (apply newly_granted_same; reflexivity). rewrite Hn.
+        assert (G : get (store s) = GNone).
+        { destruct (started s); [apply (I1 eq_refl); discriminate|destruct (I0 eq_refl); discriminate]. }
+        eexists _, _. unfold pending. rewrite G. match goal with E : chl s = CInit _ |- _ => rewrite E end.
+        split; [reflexivity|]. split; [reflexivity|].
+        unfold pending in IH. subst s1. cbn [store chl now with_child with_store] in IH. rewrite G in IH. exact IH.
+      + (* FChildTimer *)
+        match goal with |- context [newly_granted s ?x] => set (s1 := x) in * end.
+        assert (Hn : newly_granted s s1 = None) by (apply newly_granted_same; reflexivity). rewrite Hn.
+        assert (G : get (store s) = GNone).
+        { destruct (started s); [apply (I1 eq_refl); discriminate|destruct (I0 eq_refl); discriminate]. }
+        unfold pending in IH |- *. subst s1. cbn [store chl now with_child with_store] in IH. rewrite G in IH |- *.
+        match goal with E : chl s = CTx _ _ |- _ => rewrite E end.
+        split; [discriminate|exact IH].
+      + (* FChildEnd *)
+        match goal with |- context [newly_granted s ?x] => set (s1 := x) in * end.
+        pose proof (sel_step s FChildEnd s1 [] _ R A0 eq_refl eq_refl eq_refl (or_intror (ex_intro _ e Heqc))) as L.
+        match goal with E : sq_get _ _ = Some _ |- _ => specialize (L (or_intror E) tr' IH) end.
+        destruct (newly_granted s s1); exact L.
+      + (* FAdvance: nothing is pending *)
+        match goal with |- context [newly_granted s ?x] => set (s1 := x) in * end.
+        assert (Hn : newly_granted s s1 = None) by (apply newly_granted_same; reflexivity). rewrite Hn.
+        match goal with E : urgent s = false |- _ => rename E into U end.
+        match goal with E : chl s = _ |- _ => rename E into Ec end.
+        unfold urgent, child_urgent in U. rewrite Ec in U.
+        apply orb_false_iff in U as (U & _). apply orb_false_iff in U as (U & _).
+        apply orb_false_iff in U as (_ & Uq). apply sq_urgent_false in Uq as (_ & NG).
+        assert (Ep : pending s = None).
+        { unfold pending. rewrite Ec. destruct (get (store s)) as [| |y] eqn:G; [reflexivity|reflexivity|exfalso; apply (NG y); reflexivity]. }
+        assert (Ep1 : pending s1 = None).
+        { unfold pending, s1; cbn [store chl with_child with_store]. rewrite ?Ec. destruct (get (store s)) as [| |y] eqn:G; [reflexivity|reflexivity|exfalso; apply (NG y); reflexivity]. }
+        rewrite Ep. rewrite Ep1 in IH. split; [discriminate|exact IH].
+      +
+        exfalso. match goal with E : urgent s = false |- _ => rename E into U end.
+        match goal with E : chl s = _ |- _ => rename E into Ec end.
+        unfold urgent, child_urgent in U. rewrite Ec in U.
+        destruct (negb (started s)), (sq_urgent (store s)); discriminate U.
+      +
+        match goal with |- context [newly_granted s ?x] => set (s1 := x) in * end.
+        assert (Hn : newly_granted s s1 = None) by (apply newly_granted_same; reflexivity). rewrite Hn.
+        match goal with E : urgent s = false |- _ => rename E into U end.
+        match goal with E : chl s = _ |- _ => rename E into Ec end.
+        unfold urgent, child_urgent in U. rewrite Ec in U.
+        apply orb_false_iff in U as (U & _). apply orb_false_iff in U as (U & _).
+        apply orb_false_iff in U as (_ & Uq). apply sq_urgent_false in Uq as (_ & NG).
+        assert (Ep : pending s = None).
+        { unfold pending. rewrite Ec. destruct (get (store s)) as [| |y] eqn:G; [reflexivity|reflexivity|exfalso; apply (NG y); reflexivity]. }
+        assert (Ep1 : pending s1 = None).
+        { unfold pending, s1; cbn [store chl with_child with_store]. rewrite ?Ec. destruct (get (store s)) as [| |y] eqn:G; [reflexivity|reflexivity|exfalso; apply (NG y); reflexivity]. }
+        rewrite Ep. rewrite Ep1 in IH. split; [discriminate|exact IH].
+      +
+        exfalso. match goal with E : urgent s = false |- _ => rename E into U end.
+        match goal with E : chl s = _ |- _ => rename E into Ec end.
+        unfold urgent, child_urgent in U. rewrite Ec in U.
+        destruct (negb (started s)), (sq_urgent (store s)); discriminate U.
+  Qed.
 End Trace.
